@@ -216,7 +216,12 @@ func goReachableFrom(site ssa.Instruction) []goStart {
 			case *ssa.Go:
 				if reachAvoiding(fn, site, x, never) {
 					if callee, _ := calleeOf(x); callee != nil {
-						out = append(out, goStart{x.Pos(), []*ssa.Function{callee}})
+						gs := goStart{x.Pos(), []*ssa.Function{callee}}
+						// functions handed to the goroutine's function as arguments run in it as well
+						for _, arg := range x.Common().Args {
+							gs.fns = append(gs.fns, funcValuesOf(arg)...)
+						}
+						out = append(out, gs)
 					} else {
 						out = append(out, goStart{x.Pos(), nil})
 					}
